@@ -144,6 +144,68 @@ async def sk_folders_found_at_startup(hp, w, rnd, ctx):
     await w.observe()
 
 
+async def sk_delivery_during_a_multi_message_copy(hp, w, rnd, ctx):
+    """The MH agent files a message in the destination folder while a COPY of
+    several messages is adding its copies there (the delivery is made after k
+    turns of the event loop, for a spread of k): COPYUID names, for every
+    source UID, the UID under which that copy is found afterwards."""
+    import asyncio
+    import re
+
+    from ..gen import cid_of_fetch
+    from ..history import expand_uidset
+
+    a = w.session()
+    for i in range(4):
+        await w.op_append(a, "INBOX")
+    await w.op_select(a, "INBOX")
+    await w.ensure_uids_known(a)
+    await w.observe()
+    src = {m.uid: m.cid for m in w.boxes["INBOX"].msgs}
+    x = w.rig.session("X")
+    hits = 0
+    import os
+
+    for k in (1, 2, 3, 1, 2, 3, 1, 2):
+        name = f"cpd{k}x{hits}x{w.stats['copyuid_pairs_checked']}"
+        await x.cmd(f"CREATE {name}")
+        await x.append(name, b"From: z@z\r\nX-CID: first\r\n\r\nalready there\r\n")
+        t = asyncio.ensure_future(a.s.cmd(f"UID COPY 1:4 {name}"))
+        # wait until k of the copies are in the folder, then file the outsider
+        folder = str(w.rig.maildir / name)
+        for _ in range(200000):
+            await asyncio.sleep(0)
+            if t.done() or sum(1 for f in os.listdir(folder) if f.isdigit()) >= 1 + k:
+                break
+        w.rig.deliver_raw(name, b"From: ext@z\nX-CID: extmsg\n\nfiled by the agent meanwhile\n")
+        r = await t
+        code = (r.tagged.code or "") if r.tagged else ""
+        m = re.match(r"COPYUID (\d+) (\S+) (\S+)", code + " ")
+        if not r.ok or not m:
+            w.viol(["C02", "C05"], "copy-refused", f"UID COPY 1:4 {name} -> {r.brief()}")
+            break
+        su, du = expand_uidset(m.group(2)), expand_uidset(m.group(3))
+        await x.cmd(f"EXAMINE {name}")
+        rf = await x.cmd("UID FETCH 1:* (UID BODY.PEEK[HEADER.FIELDS (X-CID)])")
+        at = {d["UID"]: cid_of_fetch(d) for n, d in rf.fetches() if "UID" in d}
+        order = [at[u] for u in sorted(at)]
+        if "extmsg" in order and 1 < order.index("extmsg") < len(order) - 1:
+            hits += 1
+        w.stats["copyuid_pairs_checked"] += len(su)
+        for s_, d_ in zip(su, du):
+            if at.get(d_) != src.get(s_):
+                w.viol(["C02"], "copyuid-names-other-message", f"UID COPY 1:4 {name} with a delivery after the first {k} copies: [{code}] says source UID {s_} ({src.get(s_)}) is UID {d_} there, "
+                                                             f"which is {at.get(d_)}; the mailbox holds {[(u, at[u]) for u in sorted(at)]}")
+        if len(su) != len(du) or len(su) != 4:
+            w.viol(["C02", "C05"], "copyuid-length-mismatch", f"{code}")
+        await x.cmd("UNSELECT")
+        await x.cmd(f"DELETE {name}")
+    w.stats["deliveries_between_two_copies_of_one_copy_command"] += hits
+    await x.cmd("LOGOUT")
+    await w.op_noop(a)
+    await w.observe()
+
+
 async def sk_kill_between_commands(hp, w, rnd, ctx):
     """The user process is killed (not shut down) at quiet moments -- after a
     DELETE that left a placeholder, after a delete-and-create, after a RENAME,
@@ -226,7 +288,7 @@ async def sk_rename_then_refill(hp, w, rnd, ctx):
 class C02(HistProp):
     prop = PROP
     names = ["INBOX", "other", "arch"]
-    skeletons = [sk_expunge_last_then_append, sk_delete_recreate, sk_expunge_all_restart_deliver, sk_rename_then_refill, sk_delete_restart_recreate, sk_delete_folder_with_stray_files_recreate, sk_kill_between_commands, sk_folders_found_at_startup]
+    skeletons = [sk_expunge_last_then_append, sk_delete_recreate, sk_expunge_all_restart_deliver, sk_rename_then_refill, sk_delete_restart_recreate, sk_delete_folder_with_stray_files_recreate, sk_kill_between_commands, sk_folders_found_at_startup, sk_delivery_during_a_multi_message_copy]
     weights = {"append": 12, "store_del": 9, "expunge": 8, "uid_expunge": 4, "copy": 6, "move": 5, "deliver": 6, "restart": 2, "create": 2, "delete": 2,
                "rename": 1, "rename_inbox": 1, "advance": 4, "idle": 1, "fetch_body": 1, "store": 2}
     opts = {"create_names": ["other", "arch", "arch/sub", "tmp"], "rename_targets": ["moved", "arch/moved", "deep/er", "saved"]}
